@@ -52,6 +52,7 @@ pub fn main(args: &[String]) {
     let mut rng = Rng::new(a.seed);
     let n = if a.n > 0 { a.n } else if thorough { 4200 } else { 280 };
     let mut mods: Vec<(String, bool, Module)> = vec![];
+    let mut extra: Vec<Option<(String, String)>> = vec![None; 3];
     // hand-written witnesses of the recorded findings run first (they re-confirm them on every run)
     let opa = |methods: Vec<Method>| Module { types: vec![TypeDecl { name: "Opa".into(), def: Def::Opaque, methods }] };
     let this = || Some(SelfParam { ty: "Opa".into(), by_ref: true, mutable: false, lt: Lt::Anon });
@@ -68,7 +69,9 @@ pub fn main(args: &[String]) {
         } else {
             Avoid::default()
         };
-        mods.push((target.to_string(), unsafe_refs, Gen::valid_module_avoiding(&mut rng, prof, avoid)));
+        let m = Gen::valid_module_avoiding(&mut rng, prof, avoid);
+        extra.push(if i % 3 != 0 { Some(crate::extras::extras(&mut rng, &m, prof.option)) } else { None });
+        mods.push((target.to_string(), unsafe_refs, m));
     }
     let lines: Vec<String> = mods.iter().map(|(t, _, m)| format!("(c15 {t} {})", m.sexp_decls())).collect();
     let model = match crate::model::run_model("C15", &lines) {
@@ -80,15 +83,30 @@ pub fn main(args: &[String]) {
         }
     };
     for (k, (target, unsafe_refs, m)) in mods.iter().enumerate() {
-        let src = m.rust();
-        let case = &lines[k];
+        let plain = m.rust();
         let predicted: Vec<&str> = model[k].strip_prefix("may-panic: ").map(|s| s.split(',').collect()).unwrap_or_default();
         for (cname, mut cfg) in configs(target) {
             if *unsafe_refs {
                 cfg.set("unsafe_references_in_callbacks", toml::Value::Boolean(true));
             }
+            let mut case = lines[k].clone();
+            let mut src = plain.clone();
+            let mut o = None;
+            if let Some((tag, items)) = &extra[k] {
+                let with = crate::extras::splice(&plain, items);
+                let r = tool::run_backend_cfg(&with, target, cfg.clone());
+                if r.lowering_errors.is_empty() {
+                    rep.count(&format!("extras:{tag}"));
+                    case = format!("{} extras={tag}", lines[k]);
+                    src = with;
+                    o = Some(r);
+                } else {
+                    rep.count(&format!("extras-rejected:{target}:{tag}"));
+                }
+            }
+            let case = &case;
             rep.case(&format!("{case} {cname}"));
-            let o = tool::run_backend_cfg(&src, target, cfg);
+            let o = match o { Some(o) => o, None => tool::run_backend_cfg(&src, target, cfg) };
             rep.oracle_runs += 1;
             rep.count(&format!("{target}:{}", if o.ok() { "ok".to_string() } else if o.panic.is_some() { "panic".into() } else if !o.lowering_errors.is_empty() { "lowering-error".into() } else { "backend-error".into() }));
             if let Some(p) = &o.panic {
